@@ -378,6 +378,14 @@ func (s *grpcServer) Write(srv bytestream.ByteStream_WriteServer) error {
 		for {
 			req, err := srv.Recv()
 			if err == io.EOF {
+				if firstIteration {
+					// The client closed the stream without sending anything, so
+					// no Put was started and nothing will arrive on putResult.
+					recvResult <- status.Error(codes.InvalidArgument,
+						"Write stream closed without any WriteRequest")
+					return
+				}
+
 				if cmp == casblob.Identity && resp.CommittedSize != size {
 					msg := fmt.Sprintf("Unexpected amount of data read: %d expected: %d",
 						resp.CommittedSize, size)
